@@ -398,7 +398,14 @@ fn short_file(f: &str) -> String {
     }
 }
 
-fn panic_fail(p: PanicInfo) -> Fail {
+impl PanicInfo {
+    /// Raised in the harness's own sources (a bug of the check, reported as INCONCLUSIVE, never as a verdict).
+    pub fn in_harness(&self) -> bool {
+        !self.file.starts_with('/') && (self.file.starts_with("src/") || self.file.starts_with("harness/"))
+    }
+}
+
+pub fn panic_fail(p: PanicInfo) -> Fail {
     let mut msg = p.msg.clone();
     if msg.len() > 120 {
         msg.truncate(120);
